@@ -65,7 +65,7 @@ def r1(ctx, F):
                 and (re.search(ADDREF, c.name) or c.callee_uid() in wrappers)]
 
     sites = callers(F, ADDREF)
-    ctx.floor("C13.R1", "add_reference call sites", len(sites), 12)
+    ctx.floor("C13.R1", "add_reference call sites", len(sites), 12, inventory=True)
     for key, fpat, shape, spat in INSTANCES:
         f = F.one(fpat)
         adds = addref_calls(f)
